@@ -83,7 +83,7 @@ theorem view_defined (H : Heap) (hi : Inv H) (hdi : DInv H) (c : Nat) (hc : c < 
           | pfx p => cases h1
           | auth k hv => simp only [applyReq] at h1; split at h1 <;> cases h1
           | trace t => simp only [applyReq] at h1; split at h1 <;> cases h1
-          | unwrap _ | count | compact | nullify => cases h1
+          | unwrap _ | count | compact | nullify | addParam _ _ | wrapData _ => cases h1
           | boom b => cases b <;> cases h1
     exact this _ _ hr
 
@@ -374,6 +374,37 @@ theorem response_chain (own par : List Adapter) (dec0 : J) :
   ⟨respFold_append own par dec0, fun a => respFold_single a dec0, rfl, fun as => respFold_eq_foldl as dec0,
    fun a v h => procResp_builtin a v h, fun a as v w h1 h2 => by simp [respFold, h1, h2]⟩
 
+/-- **Adapters that rebind a field of `req_args`** (new object, the caller's one untouched): the url
+and the body are made from what the chain left in `req_args`, not from what the caller passed. The
+params adapters of the chain append their pairs in chain order (own adapters first, then the
+parent's), each once; likewise the data wrappers; every other adapter leaves both fields alone. -/
+theorem rebinding_adapters (own par : List Adapter) (p : Option UDict) (b : Body) :
+    finalParams (own ++ par) p = finalParams par (finalParams own p) ∧
+    finalBody (own ++ par) b = finalBody par (finalBody own b) ∧
+    (∀ k v, finalParams [.addParam k v] p = some ((match p with | some l => l | none => []) ++ [(k, v)])) ∧
+    (∀ a, (∀ k v, a ≠ .addParam k v) → finalParams [a] p = p) ∧
+    (∀ key v, finalBody [.wrapData key] (.json v) = .json (.obj (.cons key v .nil))) ∧
+    (∀ a, (∀ key, a ≠ .wrapData key) → finalBody [a] b = b) := by
+  refine ⟨by simp [finalParams], by simp [finalBody], fun _ _ => rfl, ?_, fun _ _ => rfl, ?_⟩
+  · intro a ha
+    cases a <;> first | rfl | exact absurd rfl (ha _ _)
+  · intro a ha
+    cases a <;> first | rfl | exact absurd rfl (ha _)
+
+/-- What is sent through a connection is assembled from the fields the chain left: the params and
+the body are the folds of the chain over the caller's. -/
+theorem request_uses_rebound (v : Conn × Str × Bool × List Adapter) (hd : Option Dict) (pd : Option UDict)
+    (body : Body) (args : Args) (s : Sent) (h : pureSend v hd pd body args = .ok s) :
+    ∃ ra, applyAll v.2.2.2 ⟨args.path, copyHeaders hd⟩ = .ok ra ∧
+      s = eraseId (assemble ⟨v.2.1, v.2.2.1, 0⟩ ra args.method (finalParams v.2.2.2 pd) (finalBody v.2.2.2 body)
+        (respFold v.2.2.2 (decodeResp args.raw args.resp))) := by
+  simp only [pureSend] at h
+  split at h
+  · cases h
+  · rename_i ra hra
+    cases h
+    exact ⟨ra, hra, rfl⟩
+
 /-- The value `do_request` returns through connection `c` is that fold over `c.adapters`, applied to
 the decoded body of the response (`""` for an empty body). -/
 theorem request_response (v : Conn × Str × Bool × List Adapter) (hd : Option Dict) (pd : Option UDict)
@@ -403,7 +434,8 @@ theorem exception_propagates (H : Heap) (c : Nat) (args : Args) (cn : Conn) (imp
   obtain ⟨hval, _, hrefused⟩ := request_spec H c args
   have hpure : requestPure H c args = match applyAll as ⟨args.path, copyHeaders hd⟩ with
       | .error e => .error e
-      | .ok ra => .ok (assemble impl ra args.method pd body (respFold as (decodeResp args.raw args.resp))) := by
+      | .ok ra => .ok (assemble impl ra args.method (finalParams as pd) (finalBody as body)
+          (respFold as (decodeResp args.raw args.resp))) := by
     simp only [requestPure, hv, hh, hp, hbd]
     cases applyAll as ⟨args.path, copyHeaders hd⟩ <;> rfl
   refine ⟨fun e he => ?_, ?_, ?_, ?_⟩
